@@ -186,6 +186,7 @@ func (st *verifC11) step() {
 			}
 			mapsBefore, eventsBefore := len(rec.maps), len(rec.events)
 			ch.handleInstanceInfo(ctx, gostatsd.InstanceInfo{IP: src, Instance: in})
+			verifYield() // the release runs on spawned goroutines
 			st.outstanding[si] = false
 			expSrc := src
 			if in != nil {
